@@ -260,9 +260,9 @@ func build(name string, R float64, centre geom.XY, par [2]float64) cfg {
 var parallelPairs = [][2]float64{{30, 60}, {60, 30}, {50, 70}, {70, 50}, {10, 45}, {-30, -60}, {-60, -30}, {-18, -36}, {-36, -18}, {-10, 40}, {40, -10}, {20, -55}, {-75, -20}, {5, 80}, {15, 25}}
 
 func runAll(c *run.Ctx) {
-	step := c.N(15, 15)   // centre graticule
+	step := c.N(15, 15)         // centre graticule
 	gstep := float64(c.N(5, 1)) // point graticule
-	nrand := c.N(200, 3000) // random points per configuration
+	nrand := c.N(200, 3000)     // random points per configuration
 	radii := []float64{1, carto.WGS84EllipsoidMeanRadiusM}
 	idx := 0
 	runCfg := func(name string, R float64, centre geom.XY, par [2]float64) {
